@@ -17,7 +17,7 @@ func init() {
 	props["C13"] = &propInfo{Level: "other", Explanation: "Decides structural necessary conditions of parse/open/probe agreement and locality: (R13.1) every caller of the reverse-varint decoders sends the 'zero bytes consumed' (truncated) and 'negative' (overflow) results to an error exit before the value or the count is used, on the variable that call produced - otherwise a value decodes differently depending on the bytes preceding it and the typed decoders disagree with the probe; (R13.2) the recursive parser, the size probe and Type.Check accept the same set of wire types = all declared ones; (R13.3) per wire type, the success condition of the typed decoder that ParseValue dispatches to refutes every rejection guard of the DecodeTypeSize arm, and both report the same size and type - a relational check over canonical read positions (the same read at the same offset from the end is the same symbol in both functions), helper exit summaries and linear entailment; (R13.4) the slice ParseList/ParseMessage hand to the recursive ParseValue is, as a canonical term over (container, index), the slice List.Get/Message.FieldAt open; (R02.1 locality obligations) every Decode*/Parse*/Open* result is a view into the value's own last n bytes and n does not depend on the preceding bytes' count. Not decided: re-parse equality of accepted inputs as a behavioural fact; typed accessors by tag (covered through R16.1/R01.4); integer wrap-around inside the size arithmetic is C02's obligation.",
 		Trusted: []string{"compactint.Reverse* contract (0 = truncated, <0 = overflow), read from the dependency source"}}
 
-	register(&Rule{ID: "R13.1", Props: []string{"C13", "C02"}, Floor: 26,
+	register(&Rule{ID: "R13.1", Props: []string{"C13", "C02"}, Floor: 20,
 		Doc: "varint result contract: the byte count returned by compactint.Reverse{Uint32,Uint64,Int32,Int64,Size} (or a wrapper forwarding the tuple) is proved >= 1 by the dominating branch conditions at every use of the decoded value and every arithmetic use of the count",
 		Run: runR13_1})
 	register(&Rule{ID: "R13.2", Props: []string{"C13"}, Floor: 4,
